@@ -40,7 +40,7 @@ def obligations(tier):
                                                 IN + "TrackEvent.from_parsed_data", GL + "GlobalEvent.from_parsed_data")))
     obs += _ned("C01.note_event_dataflow", tier, (IN + "NoteEvent.from_parsed_data",))
     obs.append(Ob("C01.builder_threading", "CH", "harness.h_events", "builder_threading", 120, funcs=(TR + "build_events_from_data",)))
-    idxs = ["0,1", "0,6,1"] if tier == "quick" else ["0,1", "0,6,1", "7,2", "3,3,4", "0,1,2,5"]
+    idxs = ["0,1", "0,6,1"] if tier == "quick" else ["0,1", "0,6,1", "7,2", "3,3,4", "0,1,5"]
     for ix in idxs:
         obs.append(Ob(f"C01.integrated.note_section[{ix}]", "CH", "harness.h_integrated", "note_section", 900, {"VF_IDX": ix, "VF_ORDER": 2},
                       funcs=(IN + "InstrumentTrack.from_chart_lines", IN + "NoteEvent.from_parsed_data", SY + "BPMEvents.timestamp_at_tick"),
